@@ -287,7 +287,8 @@ def r4(ctx):
         ctx.check(empty, "C04.R4", fi, n.ast, "a slot is written only while empty (first write wins)", witness=conds, line=n.lineno)
         rng = ("1 <= %s <= len(self.fragments)" % idx, True) in conds or \
             ((("1 <= %s" % idx, True) in conds or ("%s >= 1" % idx, True) in conds) and (("%s <= len(self.fragments)" % idx, True) in conds))
-        ctx.check(rng and norm(n.ast.targets[0].slice) == "%s - 1" % idx, "C04.R4", fi, "slot index range 1..len",
+        from .common import sym_text as _sxs
+        ctx.check(rng and _sxs(fi, n.ast.targets[0].slice, n) == "%s - 1" % idx, "C04.R4", fi, "slot index range 1..len",
                   "the 1-based index is range-checked before it selects slot index-1", witness=conds, line=n.lineno)
         ctx.check(norm(n.ast.value) == fi.params[3], "C04.R4", fi, "slot := the fragment bytes", "stored value is the received fragment", line=n.lineno)
 
